@@ -55,14 +55,15 @@ VTYPES = ('violation_door_type', 'violation_param_type', 'violation_return_type'
 def effective(kw):
     """The option values a creation *means*, after the documented defaulting: an unset
     violation_door/param/return_type takes violation_type if that is set, else its documented
-    default; is_color=None takes the environment default.  Two creations are 'equal keyword
-    arguments' for a user exactly when these coincide."""
+    default; violation_type itself stays as passed (None when not passed); is_color=None takes the
+    environment default.  Two creations are 'equal keyword arguments' for a user exactly when
+    these coincide -- BeartypeConf(violation_type=X) and BeartypeConf(violation_door_type=X,
+    violation_param_type=X, violation_return_type=X) differ (violation_type reads back X / None)."""
     full = {o: kw.get(o, DEFAULTS[o]) for o in DEFAULTS}
     vt = full.get('violation_type')
     for o in VTYPES:
         if kw.get(o) is None:
             full[o] = vt if vt is not None else DEFAULTS[o]
-    full['violation_type'] = None      # fully absorbed by the three options above
     if full.get('is_color') is None:
         full['is_color'] = DEFAULT_IS_COLOR
     return full
@@ -106,13 +107,12 @@ def _check_history(kws):
                 LAST[0] = f'invalid kwargs {kw!r} raised {type(exc).__name__} instead of BeartypeConfParamException'
                 return False
             continue
-        # read back
-        for o, v in kw.items():
+        # read back: passed options as passed, unpassed ones as documented
+        eff = effective(kw)
+        for o, want in eff.items():
             got = getattr(conf, o)
-            if v is None and (o == 'is_color' or o.startswith('violation_')):
-                continue                      # documented defaults (environment / violation_type fallback)
-            if not same(got, v):
-                LAST[0] = f'option {o} reads back {got!r} for {v!r}'
+            if not same(got, want):
+                LAST[0] = f'option {o} reads back {got!r}, expected {want!r} for {kw!r} (after {len(made)} earlier creation(s))'
                 return False
         c2, e2 = create(conf.kwargs)
         if c2 is not conf:
@@ -217,6 +217,19 @@ def spec_cls_pair(a, b):
                 warm=['0, 1, 0, 1', '2, 2, 0, 0', '0, 0, 0, 2'], timeout=200, stubs=False)
 
 
+def spec_cls_quad(n):
+    """violation_type together with the three options it defaults, two creations; n = size of the
+    class domain (2: {VerifError, None}; 3: + VerifWarning)."""
+    params = [(v, 'int') for v in ('i1', 'j1', 'i2', 'j2', 'k2', 'l2')]
+    body = ("P = [VerifError, None, VerifWarning]\n"
+            "return check_history([{'violation_type': pick(P, i1), 'violation_door_type': pick(P, j1)}, "
+            "{'violation_return_type': pick(P, l2), 'violation_param_type': pick(P, k2), "
+            "'violation_door_type': pick(P, j2), 'violation_type': pick(P, i2)}])")
+    return Spec(f'clsquad_{n}', params, body, setup=SETUP,
+                pre=[f'0 <= {v} < {n}' for v, _t in params],
+                warm=['0, 1, 1, 0, 0, 0', '0, 0, 0, 1, 1, 1', '1, 1, 1, 1, 1, 0'], timeout=200 if n == 2 else 600, stubs=False)
+
+
 def spec_cls_bool(a, b):
     params = [('i1', 'int'), ('i2', 'int'), ('w1', NUM), ('w2', NUM)]
     body = (f"return check_history([{{'{a}': pick(CLASSES, i1), '{b}': w1}}, {{'{b}': w2, '{a}': pick(CLASSES, i2)}}])")
@@ -232,7 +245,7 @@ def specs(tier, seed=0):
         out = [spec_single('is_debug'), spec_single('is_random'), spec_single('is_color')]
         out += [spec_bool_pair(*pairs[i]) for i in (0, 5)]
         out += [spec_enum('strategy', 'is_debug'), spec_cls('violation_type'), spec_cls('warning_cls_on_decorator_exception'),
-                spec_cls_pair('violation_type', 'violation_door_type')]
+                spec_cls_pair('violation_type', 'violation_door_type'), spec_cls_quad(2)]
         return out
     out += [spec_bool_pair(a, b) for a, b in pairs]
     out += [spec_triple(a) for a in BOOL_OPTS]
@@ -242,6 +255,8 @@ def specs(tier, seed=0):
     for a, b in (('violation_type', 'violation_door_type'), ('violation_type', 'violation_param_type'),
                  ('violation_type', 'violation_return_type'), ('violation_door_type', 'violation_return_type')):
         out.append(spec_cls_pair(a, b))
+    out.append(spec_cls_quad(2))
+    out.append(spec_cls_quad(3))
     for i, a in enumerate(CLS_OPTS):
         out.append(spec_cls(a))
         out.append(spec_cls_bool(a, BOOL_OPTS[i % len(BOOL_OPTS)]))
